@@ -9,7 +9,8 @@ RULE = ("M (definition level): the bit formula of sBox equals the Curl truth tab
         "per round, store counts at RET) and symbolic run of one round body (every store is the round function of its index by truth table). T: transform/transformGeneric run on seeded bit-sliced states (arbitrary words incl. the "
         "non-trit cell <<0,0>>, valid trits, the reset state, all-zero words, sparse, constant low plane) with all four buffers placed against "
         "PROT_NONE guard pages (start and end), under the default and the purego build; whole-state equality asm==portable; for audited lanes "
-        "(lane 0, 63, random) TLC evaluates 81 rounds of the definition on the 729 cells. Distinct by (build, seed, pattern, guard).")
+        "(lane 0, 63, random) TLC evaluates 81 rounds of the definition on the 729 cells. T2 (public API only): Absorb/Squeeze histories on Curl objects "
+        "under both builds with squeezed lanes anchored to the Curl-P-81 sponge evaluated by TLC. Distinct by (build, seed, pattern, guard) / (build, trace, event).")
 ASSUME = ["TLC/SANY/CommunityModules", "Go toolchain/assembler; lane-locality of the bitwise instructions (AND/XOR/OR/NOT/MOV) for lanes that are not audited",
           "guard pages detect out-of-buffer accesses that cross a page boundary next to the buffer (AsmMachine address run covers all accesses)"]
 
@@ -42,12 +43,19 @@ def run(ctx):
     vlib.note_events(ctx, ev, keep=0)
     for e in ev[:2]:
         ctx.samples.append(dict(op=e["op"], **{"in": e["in"]}, out={k: v for k, v in e["out"].items() if k not in ("incells", "outcells")}))
+    # public-API leg (survives renaming of the unexported permutations): sponge histories under both builds, squeezed
+    # lanes anchored to the Curl-P-81 sponge evaluated by TLC
+    from checks import c06
+    for name, binp in bins.items():
+        c06.sponge_histories(ctx, binp, 3 if q else 40, 3 if q else 30,
+                             "Curl object (%s build): squeezed output differs from the Curl-P-81 sponge of module CurlP81" % name,
+                             env={"VERIF_BUILD": name}, tag="_" + name)
     audited = [e for e in ev if e["out"].get("incells")]
     plain = [e for e in ev if not e["out"].get("incells")]
     bad = vlib.validate_trace(ctx, "CurlTrace", audited, chunk=1, label="T_audit") + vlib.validate_trace(ctx, "CurlTrace", plain, label="T_diff")
     for name, binp in bins.items():
         sel = [b for b in bad if b["in"].get("build") == name]
-        for e in vlib.reproduce(ctx, binp, sel, extra_env={"VERIF_BUILD": name}):
+        for e in vlib.reproduce(ctx, binp, sel, extra_env={"VERIF_BUILD": name}, history=ev):
             e = dict(e)
             e["out"] = {k: (v if k not in ("incells", "outcells") else "(%d audited lanes)" % len(v)) for k, v in e["out"].items()}
             ctx.bad.append(dict(event=e, reason="transform (%s build) differs from 81 rounds of the Curl-P definition, from transformGeneric, or touched memory outside its buffers" % name))
@@ -60,7 +68,17 @@ def replay(ctx, path):
     bins = builds(ctx)
     out = []
     for name, binp in bins.items():
-        sel = [v["event"] for v in data["violations"] if v["event"]["in"].get("build") == name]
+        for k, v in enumerate(data["violations"]):          # sponge-history violations: replay the whole history
+            if v["event"].get("history") and v["event"].get("build", "_default") == "_" + name:
+                d = ctx.rundir("replay_h%d_%s" % (k, name))
+                vlib.write_ndjson(d + "/in.ndjson", v["event"]["history"])
+                vlib.run_driver(ctx, binp, "replay", d + "/o.ndjson", infile=d + "/in.ndjson", extra_env={"VERIF_BUILD": name})
+                hev = vlib.read_ndjson(d + "/o.ndjson")
+                for i, e in enumerate(hev):
+                    e["t"], e["i"] = k + 1, i + 1
+                for e in vlib.validate_trace(ctx, "CurlTrace", hev, stateful=True, chunk=10 ** 9, label="T_replay_h"):
+                    ctx.bad.append(dict(event=dict(op=e["op"], **{"in": e["in"]}), reason="replayed"))
+        sel = [v["event"] for v in data["violations"] if not v["event"].get("history") and v["event"]["in"].get("build") == name]
         if sel:
             d = ctx.rundir("replay_" + name)
             vlib.write_ndjson(d + "/in.ndjson", [dict(op=e["op"], **{"in": e["in"]}) for e in sel])
